@@ -108,7 +108,7 @@ def run(P, C, tier):
     C.floor("R1", "decision call sites on the local path", n_dec, 12)
     # ---- R6: the decision is taken at the time of the operation, on the documented history function
     C.rule("R6", "every local decision is evaluated at the operation's date (not a stored row's date); the history lookups all have the sibling shape `latest entry at or before the date decides`")
-    OPDATE = re.compile(r"(node_to_mutate\.date|^node\.date|^edge\.date|date_utils::now|^now)$")
+    OPDATE = re.compile(r"(\.node_to_mutate\.date|^‹NodeDelete›\.date|^‹EdgeDelete›\.date|date_utils::now\(\))$")
     cnt = {}
     for f, b in bodies.items():
         for s in rights.can_sites(P, b):
